@@ -475,6 +475,12 @@ Theorem C20_invariant_step : forall cfg st o, inv cfg st -> proto_ok cfg st o = 
 Proof. exact step_good_H. Qed.
 Print Assumptions C20_invariant_step.
 
+(* Establishing theorem for the hypotheses `inv` / `winv` used above: both hold in the initial state (and are preserved:
+   C20_invariant_step under H, C20_weak_invariant_histories without). *)
+Theorem C20_invariant_initial : forall cfg, inv cfg init /\ winv cfg init.
+Proof. exact inv_init_both. Qed.
+Print Assumptions C20_invariant_initial.
+
 (* About the generated CorrectBlockSize/Ceil, for every blockCount <> 1: the pool block for a value type (0 < size < 2^32,
    0 < alignment <= 1024) is >= sizeof, a multiple of the alignment, >= 2 alignments, < sizeof + 2 alignments. *)
 Theorem C20_pool_block_fits_value : forall cfg vt, block_count cfg <> 1%Z -> vt_ok vt = true ->
